@@ -159,12 +159,16 @@ def check_case(case, ref_result=None):
         if failed(rs):
             v.append('INC-split-rejected')
         else:
-            if rs['files'].get(img) != rr['files'].get(img):
+            # trailing fill is not compared: the reference's zone-restoring `.memzone` bracket is a (non-byte) line of its
+            # own, and a trailing non-byte line at the highest address extends the image by one fill byte (C03's business)
+            ia, ib = (rs['files'].get(img) or '').rstrip('\0'), (rr['files'].get(img) or '').rstrip('\0')
+            strip_w = lambda t: '\n'.join(x for x in t.split('\n') if not x.startswith('Writing '))
+            if ia != ib:
                 v.append('INC-image-differs')
                 a, b = rs['files'].get(img) or '', rr['files'].get(img) or ''
                 obs['first_diff'] = next((i for i in range(min(len(a), len(b))) if a[i] != b[i]), min(len(a), len(b)))
                 obs['sizes'] = [len(a), len(b)]
-            elif rs['stdout'].replace(PDIR + '/', '') != rr['stdout'].replace(PDIR + '/', ''):
+            elif strip_w(rs['stdout']) != strip_w(rr['stdout']):
                 v.append('INC-hex-differs')
         return {'violations': v, 'observed': obs, 'split': rs, 'ref': rr}
     # negative and fault worlds: must be rejected, fail closed
